@@ -136,15 +136,17 @@ class Env:
                 if g is not None and env.on_delay_created is not None:
                     env.on_delay_created(self, period)
 
+            # (the overrides hand every return value through: the subclass must be transparent - a library change that
+            #  makes __exit__ swallow exceptions via free()'s return value was once masked by a bare `super().free()`)
             def free(self):
                 self._vf_freed = True
-                super().free()
+                return super().free()
 
             def wait(self):
                 g = env.gate
                 if g is not None and not self._vf_freed and threading.current_thread() is env.robot_thread:
                     g.park(self)
-                super().wait()
+                return super().wait()
 
         self.Gated = GatedNotifierDelay
         self.on_delay_created = None
